@@ -11,3 +11,52 @@ Theorem C20_transform_maps_every_point_partial : forall t p,
   forall i, nth i (p_ops (path_transform t p)) Close = op_transform t (nth i (p_ops p) Close).
 Proof. exact transform_preserves_structure. Qed.
 Print Assumptions C20_transform_maps_every_point_partial.
+
+(* ---- builder calls, the arc's structure, transform (PathShape.v, PathShapeArc.v) ---- *)
+Require Import RQ.PathShape RQ.PathShapeArc.
+
+(* finish() returns the ops of the calls in call order, NonZero.  b_run transcribes PathBuilder's methods as the pushes
+   they make (path_builder.rs); lyon's arc is a parameter *)
+Theorem C20_finish_returns_ops_in_call_order_partial : forall lyon_arc calls,
+  p_ops (b_run lyon_arc b_new calls) = flat_map (call_ops lyon_arc) calls /\
+  p_winding (b_run lyon_arc b_new calls) = NonZero.
+Proof. exact finish_returns_ops_in_call_order. Qed.
+Print Assumptions C20_finish_returns_ops_in_call_order_partial.
+
+(* arc: a LineTo to the point at the start angle, then k quadratic curves, k = ceil(min(|sweep|, 2 pi) / (pi/4)) <= 8 in
+   binary32 (so a sweep beyond one turn gives one full circle), the last one ending at the angle start + clamped sweep.
+   builder_arc transcribes lyon_geom 1.0's Arc::for_each_quadratic_bezier with libm's sinf/cosf/tanf as parameters; the
+   curve count is compared with the crate on every run (C20 check), the points are judged by the f64 oracle *)
+Theorem C20_arc_structure_partial : forall (fsin fcos ftan : f32 -> f32) x y r start sweep,
+  let k := arc_nsteps sweep in
+  builder_arc fsin fcos ftan x y r start sweep =
+    LineTo (arc_from fsin fcos x y r start sweep)
+    :: map (fun i => QuadTo (arc_ctrl fsin fcos ftan x y r start sweep i)
+                            (arc_point fsin fcos x y r (arc_angle start sweep (i + 1)))) (zrange 0 k) /\
+  length (builder_arc fsin fcos ftan x y r start sweep) = S (Z.to_nat k) /\
+  forallb is_quad_op (tl (builder_arc fsin fcos ftan x y r start sweep)) = true /\
+  k = fceil_z (fdiv (fmin (fabs sweep) f_two_pi) f_frac_pi_4) /\
+  arc_from fsin fcos x y r start sweep =
+    (let a := fadd start (fmul sweep f0) in
+     let cx := fmul r (fcos a) in let sy := fmul r (fsin a) in
+     (fadd x (fsub (fmul cx f1) (fmul sy f0)), fadd y (fadd (fmul sy f1) (fmul cx f0)))) /\
+  (0 < k -> exists c, last (builder_arc fsin fcos ftan x y r start sweep) Close =
+                      QuadTo c (arc_point fsin fcos x y r (arc_angle start sweep k))).
+Proof. exact arc_structure. Qed.
+Print Assumptions C20_arc_structure_partial.
+Theorem C20_arc_curve_count_partial : forall sweep, 0 <= arc_nsteps sweep <= 8.
+Proof. exact arc_nsteps_bound. Qed.
+Print Assumptions C20_arc_curve_count_partial.
+
+(* transform: number, kind and order of ops and the winding rule are kept, every point of every op is mapped *)
+Theorem C20_transform_preserves_structure_partial : forall t p,
+  length (p_ops (path_transform t p)) = length (p_ops p) /\
+  map op_kind (p_ops (path_transform t p)) = map op_kind (p_ops p) /\
+  map op_points (p_ops (path_transform t p)) = map (fun o => map (xf_point t) (op_points o)) (p_ops p) /\
+  p_winding (path_transform t p) = p_winding p /\
+  map MiscProofs.flat_op (p_ops (path_transform t p)) = map MiscProofs.flat_op (p_ops p) /\
+  filter MiscProofs.flat_op (p_ops (path_transform t p)) = map (op_transform t) (filter MiscProofs.flat_op (p_ops p)).
+Proof. exact transform_preserves_structure_strong. Qed.
+Print Assumptions C20_transform_preserves_structure_partial.
+(* composing two transforms is NOT the transform of the composition in binary32 *)
+(* further lemmas of the same file: transform_composition_counterexample *)
